@@ -370,6 +370,51 @@ func c17Run(c c17Case, st *vlib.Stats) string {
 	return ""
 }
 
+// c17Burst is a fixed history: several thousand rows written into one database without a tick in between
+// (one flush interval of a bulk load), then the session switches to another database and back, goes on, and
+// the program is restarted: the switch has to write out every one of the 1300+ dirty pages.
+func c17Burst(rows int) c17Case {
+	var c c17Case
+	add := func(o c17Op) { c.Ops = append(c.Ops, o) }
+	stmt := func(s model.Stmt) {
+		s.SQL = gen.RenderStmt(gen.Plain(), s)
+		add(c17Op{Op: "stmt", Stmt: &s})
+	}
+	add(c17Op{Op: "createdb", Name: "d1", SQL: "CREATE DATABASE d1"})
+	add(c17Op{Op: "createdb", Name: "d2", SQL: "CREATE DATABASE d2"})
+	add(c17Op{Op: "use", Name: "d1", SQL: "USE d1"})
+	stmt(model.Stmt{Kind: "create", Table: "big", Cols: []model.Col{{Name: "a", Type: model.TInt}, {Name: "s", Type: model.TVarchar, Len: 16}}})
+	for n := 0; n < rows; {
+		ins := model.Stmt{Kind: "insert", Table: "big"}
+		for i := 0; i < 100 && n < rows; i++ {
+			ins.Rows = append(ins.Rows, []model.Val{model.Int(int64(n)), model.Str(fmt.Sprintf("v%d", n%7))})
+			n++
+		}
+		stmt(ins)
+	}
+	add(c17Op{Op: "use", Name: "d2", SQL: "USE d2"})
+	stmt(model.Stmt{Kind: "create", Table: "t", Cols: []model.Col{{Name: "k", Type: model.TInt}}})
+	add(c17Op{Op: "use", Name: "d1", SQL: "USE d1"})
+	stmt(model.Stmt{Kind: "insert", Table: "big", Rows: [][]model.Val{{model.Int(7), model.Str("last")}}})
+	add(c17Op{Op: "restart"})
+	return c
+}
+
 func TestC17(t *testing.T) {
-	vlib.Drive(t, vlib.Prop[c17Case]{ID: "C17", Gen: c17Gen, Run: c17Run})
+	st := vlib.NewStats("C17")
+	defer st.Write(Cfg, "C17")
+	if Cfg.Replay == "" && Cfg.Shard == 0 {
+		rows := 5200
+		if Cfg.Tier == "thorough" {
+			rows = 12000
+		}
+		bc := c17Burst(rows)
+		if msg := c17Run(bc, st); msg != "" {
+			b, _ := json.Marshal(bc)
+			st.Fail("fixed bulk-load history: "+msg, b)
+			vlib.Logf("FAIL C17 (bulk load, switch, restart): %s", msg)
+			return
+		}
+	}
+	vlib.DriveWith(t, vlib.Prop[c17Case]{ID: "C17", Gen: c17Gen, Run: c17Run}, Cfg, st)
 }
